@@ -239,6 +239,7 @@ class Run7(flat.FlatRun):
             self.items.append(('done', cid, 0, int(bool(out[1])), 0))
             return out[1]
         exc = make_exc(out[1], out[2])
+        self.__dict__.setdefault('scripted', []).append(exc)
         self.items.append(('done', cid, 1) + canon_exc(exc))
         raise exc
 
@@ -319,6 +320,7 @@ class Run7(flat.FlatRun):
             if isinstance(e, common.MachineryError):
                 raise
             self.items.append(('raised', tag) + canon_exc(e))
+            self.__dict__.setdefault('raised_objs', {})[tag] = e
             raise
         self.items.append(('ret', tag, int(bool(r))))
         return r
